@@ -1164,7 +1164,7 @@ def cases_f(tier):
     return out
 
 
-def _f_scn(S, pw, k, t_bulk, recycle, types=None, ducts=1, length=None, ctol=0.002):
+def _f_scn(S, pw, k, t_bulk, recycle, types=None, ducts=1, length=None, ctol=0.002, regroup=None, peaked=()):
     """tiny real core; types: type name per position ('fuel' is grouped, 'ctrl' is not);
     ducts=2: double duct with a flowing bypass gap (20 % of the assembly flow)"""
     if ducts == 2:
@@ -1174,19 +1174,27 @@ def _f_scn(S, pw, k, t_bulk, recycle, types=None, ducts=1, length=None, ctol=0.0
     npin = S.n_pins(2)
     types = types or ['fuel'] * len(pw)
     length = length or F_LEN
-    return {'setup': {'log_progress': 0, 'calc_energy_balance': False},
+    # peaked: assemblies whose power sits mostly in one pin (their peak coolant temperature is higher than their total
+    # power suggests, which is what makes a regrouping move them)
+    wts = {i: ([3.0] + [(npin - 3.0) / (npin - 1)] * (npin - 1) if i in peaked else [1.0] * npin) for i in range(len(pw))}
+    scn = {'setup': {'log_progress': 0, 'calc_energy_balance': False},
             'core': {'inlet': T_IN, 'length': length, 'coolant': COOLANT, 'gap_model': 'no_flow',
                      'pitch': round(max(dsn['duct_ftf']) + 0.004, 9)},
             'types': {nm: dict(dsn) for nm in sorted(set(types))},
             'assign': [[t, rg, ps, {'flowrate': 1.0}]
                        for t, (rg, ps) in zip(types, S.core_positions(2))],
             'power': {'asm': {str(i + 1): {'cells': [0.0, length],
-                                           'pins': [[[pw[i] / npin / length] for _ in range(npin)]]}
+                                           'pins': [[[wts[i][j_] * pw[i] / npin / length] for j_ in range(npin)]]}
                               for i in range(len(pw))}},
             'orificing': {'assemblies_to_group': ['fuel'], 'n_groups': k,
                           'value_to_optimize': 'peak coolant temp', 'bulk_coolant_temp': t_bulk,
                           'iteration_limit': 3, 'convergence_tol': ctol,
                           'recycle_results': bool(recycle)}}
+    if regroup:
+        # small tolerances: a member within 2 % of the neighbouring group may move, any improvement counts
+        scn['orificing'].update({'regroup': regroup, 'regroup_option_tol': 0.02, 'regroup_improvement_tol': 0.0,
+                                 'iteration_limit': 2})
+    return scn
 
 
 def _f_flows(o, pw, t_bulk, cp):
@@ -1379,6 +1387,19 @@ def cases_g(tier):
                             continue
                     out.append({'family': fam, 'layout': lay, 'ducts': ducts, 'n_groups': k,
                                 'powers': 'A', 'n': 7})
+    # whole optimisations with regrouping switched on and assemblies whose peak is higher than their power suggests
+    for rg in ('every', 'once'):
+        for pk, k in (([1, 2], 3), ([5], 2), ([3, 6], 3)):
+            out.append({'family': 'iterate', 'layout': 'all-fuel', 'ducts': 1, 'n_groups': k, 'powers': 'A', 'n': 7,
+                        'regroup': rg, 'peaked': pk})
+    if tier != 'quick':
+        import itertools
+        for rg in ('every', 'once'):
+            for n_ in (1, 2):
+                for pk in itertools.combinations(range(7), n_):
+                    for k in (2, 3):
+                        out.append({'family': 'iterate', 'layout': 'all-fuel', 'ducts': 1, 'n_groups': k, 'powers': 'A',
+                                    'n': 7, 'regroup': rg, 'peaked': list(pk)})
     return out
 
 
@@ -1401,7 +1422,8 @@ def run_iter(c):
     r['traces'] = 1
     r['nontrivial'] = True
     scn = _f_scn(S, pw, k, T_BULK, False, types=types, ducts=c['ducts'],
-                 length=G_LEN if c['ducts'] == 2 else F_LEN, ctol=1e-6)
+                 length=G_LEN if c['ducts'] == 2 else F_LEN, ctol=1e-6, regroup=c.get('regroup'),
+                 peaked=tuple(c.get('peaked') or ()))
 
     def bad(kind, what, obs=None, exp=None, tol=None, site=None):
         V.append(violation(kind, c, what, obs, exp, tol, site=site))
@@ -1489,8 +1511,9 @@ def run_iter(c):
                     mg, tg, nm = given(d_it)
                     r['states'] += 1
                     flows = [mg[i] for i in gid]
-                    # equal flow inside a group, in the run itself
-                    for g in sorted(set(groups)):
+                    # equal flow inside a group, in the run itself (with regrouping the groups of the report are
+                    # those of the LAST iteration only)
+                    for g in (sorted(set(groups)) if (not c.get('regroup') or it == its[-1]) else ()):
                         mem = [flows[j] for j in range(len(gid)) if groups[j] == g]
                         if max(mem) - min(mem) > TOL_EQ * max(mem):
                             bad('unequal-flow-in-group', 'iteration %d ran members of group %d with '
